@@ -11,6 +11,6 @@ notes = check.regen(log)
 check.ensure_makefile()
 print("regen notes:", notes)
 PY
-(cd coq && timeout 3000 make -f Makefile.coq -j16 >../work/setup-coq.log 2>&1) || { tail -30 work/setup-coq.log; exit 1; }
+(cd coq && timeout 3000 make -k -f Makefile.coq -j16 >../work/setup-coq.log 2>&1) || { echo "some Coq files did not build (the per-property checks report which):"; grep -B2 -A6 "^Error" work/setup-coq.log | head -40; }
 (cd harness && go build -tags verif -o ../work/bin/harness .)
 echo "setup ok"
